@@ -26,6 +26,7 @@ def tasks(tier, seed=0):
     out = [task(A, "ob_handle_annotations", "annos._handle_annotations/clauses", ["C07"], tier=tier),
            task(A, "ob_op_wrapper", "annos.op._op/meaning+clauses", ["C07", "C01"], tier=tier),
            task(A, "ob_algo_simplify", "annos.algorithm.simplify/meaning+clauses", ["C07", "C09"], tier=tier),
+           task(A, "ob_algo_simplify", "annos.algorithm.simplify[conjunction]/meaning+clauses", ["C07", "C09"], tier=tier, shape="and"),
            task("vf.contracts.frontend", "ob_simplify", "frontend.ConstrainedFrontend.simplify/models-unchanged", ["C09", "C07"], tier=tier)]
     B = "vf.contracts.basenew"
     out += [task(B, "ob_base_new", "basenew.Base.__new__/metadata", ["C05", "C07"], tier=tier),
